@@ -145,6 +145,22 @@ func check(c Case) (msg, key string) {
 		}
 		os.MkdirAll(filepath.Join(dir, ob), 0o755)
 	}
+	if i := strings.Index(baseName, ".vol"); i > 0 && c.Format == "par2" && c.State != "create-obstructed" && c.State != "unknown-ext" {
+		// the base name looks like a recovery file of a shorter-named set, and that other, unrelated set exists beside it
+		other := filepath.Join(dir, "zz-other", "o.dat")
+		os.MkdirAll(filepath.Dir(other), 0o755)
+		os.WriteFile(other, []byte("a file of an unrelated recovery set whose index name is a prefix of this set's index name"), 0o644)
+		if ro := par(dir, "c", "-s", "8", "-c", "2", filepath.Join(dir, baseName[:i]+".par2"), other); ro.code != 0 {
+			return fmt.Sprintf("creating the unrelated sibling set exited %d: %s", ro.code, tail(ro.out)), ""
+		}
+	}
+	// everything that exists before this set is created is neither a protected file nor one of its recovery files
+	preNames := map[string]bool{}
+	if pre, err := fsx.Take(dir); err == nil {
+		for n := range pre {
+			preNames[n] = true
+		}
+	}
 	if c.State == "stale-volumes" && c.Format == "par2" {
 		// an older generation of the set - the first file had the same length and first 16 KiB (hence the same file and set
 		// IDs) but another tail - was created with more recovery blocks; its higher-numbered recovery files stay behind
@@ -189,7 +205,7 @@ func check(c Case) (msg, key string) {
 	snap, _ := fsx.Take(dir)
 	var vols []string
 	for n, e := range snap {
-		if e.IsDir || orig[n] != nil {
+		if e.IsDir || orig[n] != nil || preNames[n] {
 			continue
 		}
 		if _, isOrig := orig[n]; isOrig {
@@ -278,6 +294,14 @@ func check(c Case) (msg, key string) {
 			d[k] = byte(k*7 + 3)
 		}
 		state[names[0]] = d
+		expectV, expectR = 1, 0
+	case "par1-comment": // the index volume carries a comment (written by another client), a data file is missing
+		if pv, err := par1ref.Parse(snap[idxName].Data); err == nil {
+			comments := [][]byte{{0xff, 0xfe, 'h', 0, 'i'}, {0xff, 0xfe}, {0xfe, 0xff, 0, 'x', 0}, []byte("plain ascii comment, odd"), {0xff}, {0, 0, 0}, {0xff, 0xfe, 0x3d, 0xd8}}
+			v := par1ref.Volume{Version: pv.Version, SetHash: pv.SetHash, VolNumber: pv.VolNumber, Entries: pv.Entries, Data: comments[c.Spell%len(comments)]}
+			os.WriteFile(filepath.Join(dir, idxName), v.Encode(), 0o644)
+		}
+		delete(state, names[0])
 		expectV, expectR = 1, 0
 	case "swap":
 		state[names[0]], state[names[1]] = state[names[1]], state[names[0]]
@@ -443,12 +467,12 @@ func check(c Case) (msg, key string) {
 }
 
 var states2 = []string{"intact", "stale-volumes", "cut-in-zero-tail", "dup-slice", "symlinked-volumes", "dup-volume", "grown-16k", "repairable", "repairable-flip", "relocation", "length-only", "create-obstructed", "swap", "unrepairable", "noparity-damaged", "all-lost", "noparity-intact", "damaged-index", "missing-index", "unknown-ext"}
-var states1 = []string{"intact", "symlinked-volumes", "grown-16k", "repairable", "repairable-flip", "create-obstructed", "unrepairable", "noparity-damaged", "all-lost", "noparity-intact", "damaged-index", "missing-index", "unknown-ext"}
+var states1 = []string{"intact", "par1-comment", "symlinked-volumes", "grown-16k", "repairable", "repairable-flip", "create-obstructed", "unrepairable", "noparity-damaged", "all-lost", "noparity-intact", "damaged-index", "missing-index", "unknown-ext"}
 
 var usages = [][]string{{}, {"frobnicate"}, {"frobnicate", "set.par2"}, {"v"}, {"verify"}, {"r"}, {"c"}, {"c", "set.par2"}, {"create", "set.par"}, {"-bogus", "v", "set.par2"},
 	{"-g", "abc", "v", "set.par2"}, {"c", "-s", "xyz", "set.par2", "a"}, {"c", "-c", "1.5", "set.par2", "a"}, {"v", "-bogus", "set.par2"}, {"r", "-bogus", "set.par"}, {"-g"}, {"c", "-s"}}
 
-var idxBases = []string{"set", "set", "rate 5%", "my%20set", "a b", "x.y", "100%d", "q[1]", "backup.part1", "x.par2", "set.par"}
+var idxBases = []string{"set", "set", "backup.vol7+3", "rate 5%", "my%20set", "a b", "x.y", "100%d", "q[1]", "backup.part1", "x.par2", "set.par"}
 
 func mk(format, state string, i int) Case {
 	c := Case{Format: format, State: state, Spell: i, Base: idxBases[i%len(idxBases)], Dir: scen.DirNames[(i/2)%len(scen.DirNames)], Cwd: []string{"set", "parent", "unrelated"}[i%3], G: []int{0, 1, 3}[i%3], Flag: i%2 == 0}
@@ -459,6 +483,10 @@ func mk(format, state string, i int) Case {
 	} else {
 		c.Files = []scen.FileSpec{{Name: "a.dat", Size: 20, Kind: "random", Seed: uint64(i + 1)}, {Name: "b b.bin", Size: 5 + i%7, Kind: "random", Seed: uint64(i + 2)}, {Name: "c.x", Size: 33, Kind: "random", Seed: uint64(i + 3)}}
 		c.N = 1 + i%2
+	}
+	if i%4 == 0 && len(c.Files) > 0 && c.Files[0].Size >= 8 {
+		// a protected file that itself starts with the PAR2 packet magic (a set protecting other sets)
+		c.Files[0].Kind = "par2magic"
 	}
 	if state == "dup-volume" {
 		c.N = 1
